@@ -32,10 +32,10 @@ fn cfg_for(tier: Tier, args: &cli::Args) -> (Cfg, usize) {
 	let cfg = Cfg {
 		thorough,
 		mutate_all: args.opt_u64("mutate_all").map(|v| v != 0).unwrap_or(false),
-		max_mutated_per_type: args.opt_u64("max_mutated").unwrap_or(if thorough { 400 } else { 20 }) as usize,
+		max_mutated_per_type: args.opt_u64("max_mutated").unwrap_or(if thorough { 200 } else { 32 }) as usize,
 		subst_all: args.opt_u64("subst_all").map(|v| v != 0).unwrap_or(thorough),
-		dense_limit: args.opt_u64("dense_limit").unwrap_or(if thorough { 2048 } else { 512 }) as usize,
-		sparse_offsets: args.opt_u64("sparse_offsets").unwrap_or(if thorough { 1024 } else { 256 }) as usize,
+		dense_limit: args.opt_u64("dense_limit").unwrap_or(if thorough { 2048 } else { 1500 }) as usize,
+		sparse_offsets: args.opt_u64("sparse_offsets").unwrap_or(if thorough { 512 } else { 64 }) as usize,
 		collect_digests: true,
 	};
 	(cfg, cap)
@@ -168,10 +168,11 @@ fn main() {
 			for idx in 0..r.n_values() {
 				let mutated = ms.binary_search(&idx).is_ok();
 				let len = r.encoded_len(idx) as u64 + 1;
-				let cost = if mutated { len * if cfg.subst_all { 300 } else { 12 } * (1 + len / 200) } else { len / 64 + 1 };
+				let sites = if len as usize > cfg.dense_limit { cfg.sparse_offsets as u64 } else { len };
+				let cost = if mutated { sites * if cfg.subst_all { 300 } else { 12 } * (1 + len / 200) } else { len / 64 + 1 };
 				work.push((cost, Work::Case { t, idx, mutated }));
 			}
-			work.push((70_000, Work::Short { t }));
+			work.push((140_000, Work::Short { t }));
 		}
 		mutated_sets.push(ms);
 	}
@@ -188,25 +189,35 @@ fn main() {
 	// Heaviest first (deterministic: cost is a function of the generated values only); results are
 	// re-ordered by their position in the table afterwards.
 	let mut order: Vec<usize> = (0..work.len()).collect();
-	order.sort_by(|a, b| work[*b].0.cmp(&work[*a].0).then(a.cmp(b)));
+	let heavy = |w: &Work| -> u8 {
+		match w {
+			Work::Case { mutated, .. } => *mutated as u8,
+			_ => 0,
+		}
+	};
+	// cheap items (valid-value oracles on every generated value, short strings, unknown ids) first,
+	// so that a wall-clock cap can only cut into the malformed-input suites
+	order.sort_by(|a, b| heavy(&work[*a].1).cmp(&heavy(&work[*b].1)).then(work[*b].0.cmp(&work[*a].0)).then(a.cmp(b)));
 	let items: Vec<(usize, Work)> = order.iter().map(|i| (*i, work[*i].1.clone())).collect();
 
 	// ---- run ----
 	let collect = cfg.collect_digests;
-	let results = par::map(&items, args.threads, |_, (_, w)| -> Option<CaseOut> {
+	let results = par::map(&items, args.threads, |_, (_, w)| -> Option<(CaseOut, f64)> {
 		if Instant::now() >= deadline {
 			return None;
 		}
-		Some(match w {
+		let t0 = Instant::now();
+		let out = (match w {
 			Work::Case { t, idx, mutated } => table[*t].run_case(*idx, *mutated, &cfg),
 			Work::Short { t } => table[*t].run_short(&cfg),
 			Work::Unknown { ids, maxlen } => run_unknown(ids, *maxlen, collect),
-		})
+		});
+		Some((out, t0.elapsed().as_secs_f64()))
 	});
 	let too_short = run_too_short();
 
 	// ---- collect (in table order) ----
-	let mut by_pos: Vec<Option<Result<Option<CaseOut>, String>>> = (0..work.len()).map(|_| None).collect();
+	let mut by_pos: Vec<Option<Result<Option<(CaseOut, f64)>, String>>> = (0..work.len()).map(|_| None).collect();
 	for ((pos, _), r) in items.iter().zip(results.into_iter()) {
 		by_pos[*pos] = Some(r);
 	}
@@ -217,11 +228,13 @@ fn main() {
 	let mut digests: Vec<u64> = Vec::new();
 	let mut samples: Vec<Value> = Vec::new();
 	let mut machinery: Vec<String> = Vec::new();
+	let mut timings: Vec<(f64, usize)> = Vec::new();
 	for (pos, r) in by_pos.into_iter().enumerate() {
 		let w = &work[pos].1;
 		match r.expect("every work item has a result") {
 			Ok(None) => skipped += 1,
-			Ok(Some(mut out)) => {
+			Ok(Some((mut out, secs))) => {
+				timings.push((secs, pos));
 				if let Some(e) = out.machinery_error.take() {
 					machinery.push(e);
 				}
@@ -255,6 +268,18 @@ fn main() {
 		cli::die(&format!("{} generator errors, first: {}", machinery.len(), machinery[0]));
 	}
 	let capped = skipped > 0;
+	if args.opt("timing").is_some() {
+		timings.sort_by(|a, b| b.0.partial_cmp(&a.0).unwrap());
+		for (secs, pos) in timings.iter().take(25) {
+			let d = match &work[*pos].1 {
+				Work::Case { t, idx, mutated } => format!("{} value {} mutated {} len {}", table[*t].name(), idx, mutated, table[*t].encoded_len(*idx)),
+				Work::Short { t } => format!("{} short strings", table[*t].name()),
+				Work::Unknown { ids, maxlen } => format!("unknown ids {}.. maxlen {}", ids[0], maxlen),
+			};
+			eprintln!("timing {:8.3}s  est {:>12}  {}", secs, work[*pos].0, d);
+		}
+		eprintln!("timing total item seconds {:.1}", timings.iter().map(|t| t.0).sum::<f64>());
+	}
 	digests.sort_unstable();
 	digests.dedup();
 
@@ -338,13 +363,15 @@ fn main() {
 			"substitutions_per_offset": if cfg.subst_all { "all 255 other values + 0xffff pair" } else { "8 single-bit flips + 0xffff pair" },
 			"all_offsets_up_to_len": cfg.dense_limit,
 			"offsets_for_longer_encodings": cfg.sparse_offsets,
-			"truncations": "every prefix of every encoding that gets the malformed suite",
+			"truncations": "every prefix of every encoding up to all_offsets_up_to_len that gets the malformed suite; for longer encodings the prefix lengths of the sparse offset set (head, tail, evenly spaced middle)",
 			"extensions": if cfg.thorough { "all 256 one-byte, 64 + 1240 two-byte" } else { "all 256 one-byte, 64 two-byte" },
 			"short_strings": "all byte strings of length <= 2 after every known type id (codec and dispatch) and after 13 unknown ids; all of length <= 1 after every other id below 1100 and the region boundaries",
+			"uniform_strings": "per type, b^L for every byte b and L in 3..=160, every 13th length up to 1500, 4095, 4096, 4097, 32768, 65533",
 			"wall_cap_s": wall_cap,
 		}),
 	);
 	ev.set("generation_s", (gen_s * 1000.0).round() / 1000.0);
+	ev.set("outside_domain_observations", types::outside_domain_observations());
 	ev.assume("secp256k1 point / signature parsing and rust-bitcoin consensus (de)serialisation of Transaction / Witness are trusted components behind the codecs");
 	ev.assume("the domain of 'messages the library can construct' is restricted to messages that fit BOLT-1's 65535 bytes, ChannelUpdate.message_flags with the must_be_one bit set, blinded paths with 1..=255 hops, excess_address_data that starts with an unknown address type (what the library itself produces)");
 	ev.assume("an unknown even message type is turned into an error by PeerManager (peer_handler.rs, `Message::Unknown(_) if message.is_even()` => disconnect); this engine checks that wire::read classifies it as unknown-and-even, the disconnect itself is exercised by C15");
@@ -368,8 +395,8 @@ fn main() {
 			if s.err[Class::Trunc as usize] == 0 {
 				problems.push(format!("{}: no truncation was rejected", r.name()));
 			}
-			if s.ok[Class::Subst as usize] == 0 || s.err[Class::Subst as usize] == 0 {
-				problems.push(format!("{}: substitutions never {}", r.name(), if s.ok[Class::Subst as usize] == 0 { "decoded" } else { "failed" }));
+			if s.ok[Class::Subst as usize] == 0 {
+				problems.push(format!("{}: substitutions never decoded", r.name()));
 			}
 			if r.has_tlv() && (s.ok[Class::TlvOdd as usize] == 0 || s.err[Class::TlvEven as usize] == 0 || s.err[Class::NonMin as usize] == 0) {
 				problems.push(format!("{}: TLV probes vacuous (odd ok {}, even err {}, non-minimal err {})", r.name(), s.ok[Class::TlvOdd as usize], s.err[Class::TlvEven as usize], s.err[Class::NonMin as usize]));
@@ -380,6 +407,9 @@ fn main() {
 			if r.dispatched() && s.ok[Class::Wire as usize] == 0 {
 				problems.push(format!("{}: never decoded through wire::read", r.name()));
 			}
+		}
+		if total.err[Class::Subst as usize] == 0 || total.err[Class::Ext as usize] == 0 || total.ok[Class::Ext as usize] == 0 {
+			problems.push("substitutions / extensions never rejected (or extensions never accepted)".into());
 		}
 		if total.changed_ok == 0 {
 			problems.push("no mutated input decoded to a different message".into());
